@@ -41,7 +41,7 @@ fn list(v: &[u64]) -> String {
 }
 
 /// members: 0 = P (driver, commits), 1 = M (in-memory subject), 2 = S (SQLite subject), 3 = Q (sender whose leaf changes)
-fn scenario<C: MlsConfig>(rng: &mut Rng, mk: Mk<C>, out: &mut Out, qa_mem: &mut QA, qa_sql: &mut QA) {
+fn scenario<C: MlsConfig>(rng: &mut Rng, mk: Mk<C>, out: &mut Out, qa_mem: &mut QA, qa_sql: &mut QA, qa_side: &mut [QA; 2]) {
     let mut w: World<C> = new_world(Default::default(), "/tmp/vharness-scratch-c06");
     let ret = *rng.pick(&[1usize, 2, 3, 5]);
     new_client(&mut w, mk, "P", false, 3);
@@ -86,8 +86,19 @@ fn scenario<C: MlsConfig>(rng: &mut Rng, mk: Mk<C>, out: &mut Out, qa_mem: &mut 
     let mut side_stored: BTreeMap<usize, BTreeMap<u64, Vec<u8>>> = BTreeMap::new();
     for i in [1usize, 2] {
         if let Ok(mut g) = w.members[i].client.create_group(Default::default(), Default::default(), None) {
-            let _ = g.commit(vec![]).and_then(|_| g.apply_pending_commit());
-            let _ = g.write_to_storage();
+            // the side group is CREATED by the subject, so its stored history starts at epoch 0 (a joiner's starts at its
+            // joining epoch): its repository operations are a model stream of their own
+            let qs = &mut qa_side[i - 1];
+            qs.put(&format!("repo.new {} {ret}", if i == 1 { "mem" } else { "sql" }), "ok");
+            if g.commit(vec![]).and_then(|_| g.apply_pending_commit()).is_ok() {
+                qs.put("repo.ins 0", "ok");
+            }
+            if g.write_to_storage().is_ok() {
+                qs.put("repo.write", "ok");
+                let gid = g.group_id().to_vec();
+                let ids: Vec<u64> = (0..g.current_epoch()).filter(|e| matches!(w.members[i].h.store.epoch(&gid, *e), Ok(Some(_)))).collect();
+                qs.put("repo.ids", &list(&ids));
+            }
             side.insert(i, g);
         }
     }
@@ -223,7 +234,21 @@ fn scenario<C: MlsConfig>(rng: &mut Rng, mk: Mk<C>, out: &mut Out, qa_mem: &mut 
         // the side groups advance and are written; their stored prior epochs are recorded
         for i in [1usize, 2] {
             if let Some(g) = side.get_mut(&i) {
-                let ok = g.commit(vec![]).and_then(|_| g.apply_pending_commit()).is_ok() && g.write_to_storage().is_ok();
+                let before = g.current_epoch();
+                // sometimes two epochs per write, so that the trim at a write removes more than one record
+                let two = rng.chance(1, 4);
+                let mut ok = g.commit(vec![]).and_then(|_| g.apply_pending_commit()).is_ok();
+                if ok && two {
+                    ok = g.commit(vec![]).and_then(|_| g.apply_pending_commit()).is_ok();
+                }
+                let ok = ok && g.write_to_storage().is_ok();
+                if ok {
+                    let qs = &mut qa_side[i - 1];
+                    for e in before..g.current_epoch() {
+                        qs.put(&format!("repo.ins {e}"), "ok");
+                    }
+                    qs.put("repo.write", "ok");
+                }
                 if !ok {
                     out.fails.push(("C06".into(), format!("subject {i}: side group cannot advance / be written")));
                     continue;
@@ -236,6 +261,7 @@ fn scenario<C: MlsConfig>(rng: &mut Rng, mk: Mk<C>, out: &mut Out, qa_mem: &mut 
                         m.insert(e, rec.to_vec());
                     }
                 }
+                qa_side[i - 1].put("repo.ids", &list(&m.keys().cloned().collect::<Vec<u64>>()));
                 side_stored.insert(i, m);
             }
         }
@@ -466,23 +492,27 @@ pub fn run(o: &Opts) -> i32 {
     let mut rng = Rng::new(o.seed());
     let mut qa_mem = QA::create(&dir, "c06");
     let mut qa_sql = QA::create(&dir, "c06sql");
+    let mut qa_side = [QA::create(&dir, "c06sidemem"), QA::create(&dir, "c06sidesql")];
     let n = o.u64("scenarios", if o.thorough() { 1500 } else { 80 });
     let mut out = Out { fails: vec![], cases: 0, lates: 0, reloads: 0, crashes: 0, cover: Default::default(), samples: vec![] };
     let mk = |s: &Setup, hd: &Handles, id, sk| mk_client(s, hd, id, sk);
     for _ in 0..n {
         let mut r = rng.fork();
-        scenario(&mut r, &mk, &mut out, &mut qa_mem, &mut qa_sql);
+        scenario(&mut r, &mk, &mut out, &mut qa_mem, &mut qa_sql, &mut qa_side);
     }
     let rows = qa_mem.finish();
-    let rows2 = qa_sql.finish();
+    let [qs_mem, qs_sql] = qa_side;
+    let rows2 = qa_sql.finish() + qs_mem.finish() + qs_sql.finish();
     // one stream for the driver: concatenate
-    let cat = |a: &str, b: &str, dst: &str| {
-        let mut s = std::fs::read_to_string(format!("{dir}/{a}")).unwrap_or_default();
-        s.push_str(&std::fs::read_to_string(format!("{dir}/{b}")).unwrap_or_default());
-        std::fs::write(format!("{dir}/{dst}"), s).unwrap();
+    let cat = |ext: &str| {
+        let mut s = String::new();
+        for a in ["c06", "c06sql", "c06sidemem", "c06sidesql"] {
+            s.push_str(&std::fs::read_to_string(format!("{dir}/{a}.{ext}")).unwrap_or_default());
+        }
+        std::fs::write(format!("{dir}/c06all.{ext}"), s).unwrap();
     };
-    cat("c06.q", "c06sql.q", "c06all.q");
-    cat("c06.rust", "c06sql.rust", "c06all.rust");
+    cat("q");
+    cat("rust");
     println!("rows {}", rows + rows2);
     println!("cases {}", out.cases);
     println!("late_deliveries {}", out.lates);
